@@ -438,6 +438,8 @@ def _contains(I, container: Any, item: Any, st, item_expr) -> list:
             st.facts[key] = True
             s2.facts[key] = False
             return [(True, st), (False, s2)]
+        if isinstance(container, Opaque):
+            st.note(f"membership in library value {container.cls}")
         return _fork(st)
     if isinstance(item, (CharSet, IntSet)) and all(is_concrete(m) for m in members):
         mem = set(members)
@@ -539,6 +541,19 @@ def _as_dict(v: Any, st) -> Optional[dict]:
 
 def index_(I, base: Any, idx: Any, st, node=None) -> list:
     from .absint import Raised
+
+    if isinstance(base, Opaque) and base.cls in ("ext:typing.Literal", "ext:typing_extensions.Literal"):
+        # typing.Literal[a, b, Literal[c]] -- a value listing its (flattened) constant arguments
+        flat: list = []
+        for a in (idx if isinstance(idx, tuple) else (idx,)):
+            if isinstance(a, Opaque) and a.cls == "typing.Literal":
+                flat.extend(eval(a.tag, {"__builtins__": {}}))  # repr of a tuple of constants written two lines below
+            elif a is None or isinstance(a, (bool, int, str, bytes)):
+                flat.append(a)
+            else:
+                st.note("typing.Literal of a non-constant")
+                return [(Unknown("Literal"), st)]
+        return [(Opaque("typing.Literal", repr(tuple(flat))), st)]
 
     if isinstance(base, (str, tuple, list)):
         if isinstance(idx, int) and not isinstance(idx, bool):
@@ -1355,7 +1370,17 @@ def _orderable(k: Any) -> bool:
         return False
     if isinstance(k, (str, int)):
         return True
+    if isinstance(k, Opaque) and k.cls == "vpath":
+        return True  # pathlib orders paths by their parts; for the scenario paths (same depth conventions) that is the order of their text
     return isinstance(k, tuple) and all(_orderable(x) for x in k)
+
+
+def _ord(k: Any) -> Any:
+    if isinstance(k, Opaque):
+        return tuple(k.tag.split("/"))
+    if isinstance(k, tuple):
+        return tuple(_ord(x) for x in k)
+    return k
 
 
 def _ext_itemgetter(I, args, kwargs, st, node):
@@ -1387,7 +1412,7 @@ def b_sorted(I, args, kwargs, st, node):
             order = None
             if all(_orderable(k) for k, _ in pairs):
                 try:
-                    order = sorted(range(len(pairs)), key=lambda i: pairs[i][0], reverse=bool(kwargs.get("reverse")))
+                    order = sorted(range(len(pairs)), key=lambda i: _ord(pairs[i][0]), reverse=bool(kwargs.get("reverse")))
                 except TypeError:
                     order = None
             if order is not None:
@@ -1399,7 +1424,7 @@ def b_sorted(I, args, kwargs, st, node):
         return out
     if all(_orderable(x) for x in items) and kwargs.get("key") is None:
         try:
-            return [(st.alloc(HObj("list", items=sorted(items, reverse=bool(kwargs.get("reverse"))))), st)]
+            return [(st.alloc(HObj("list", items=sorted(items, key=_ord, reverse=bool(kwargs.get("reverse"))))), st)]
         except TypeError:
             pass
     setlike = isinstance(args[0], Ref) and (st.obj(args[0]).setlike or st.obj(args[0]).kind == "set")
@@ -1535,6 +1560,9 @@ def b_sum(I, args, kwargs, st, node):
 
 
 def b_print(I, args, kwargs, st, node):
+    hook = I.probes.get("print")
+    if hook is not None:
+        hook(I, args, kwargs, st, node)
     return [(None, st)]
 
 
@@ -1879,6 +1907,13 @@ def re_match_method(I, recv, name, args, kwargs, st):
     return None
 
 
+def _ext_literal_to_list(I, args, kwargs, st, node):
+    """typist.literal_to_list(Literal[...]) / typing.get_args: the literal's constants."""
+    if len(args) == 1 and isinstance(args[0], Opaque) and args[0].cls == "typing.Literal":
+        return [(st.alloc(HObj("list", items=list(eval(args[0].tag, {"__builtins__": {}})))), st)]
+    return None
+
+
 def _ext_defaultdict(I, args, kwargs, st, node):
     """collections.defaultdict(factory[, mapping]): a heap dict that remembers its factory."""
     fields: dict = {}
@@ -1900,6 +1935,8 @@ def _ext_ordereddict(I, args, kwargs, st, node):
 
 
 EXT_CALLS = {
+    "ext:typist.literal_to_list": _ext_literal_to_list,
+    "ext:typing.get_args": _ext_literal_to_list,
     "ext:re.compile": _ext_re_compile,
     "ext:re.match": _re_const("match"),
     "ext:re.search": _re_const("search"),
